@@ -392,6 +392,8 @@ def run(ctx: core.Ctx) -> int:
     ok = any(isinstance(x, NInst) and x.cls == sc.Reading for x in sc.alts(r2))
     ctx.oblige("MAKE-READING", "py/formak/python.py:ExtendedKalmanFilter.make_reading", f"keywords -> {r2!r}", ok, file="py/formak/python.py",
                func="ExtendedKalmanFilter.make_reading", construct="keyword path", msg=f"make_reading(key, **kw) yields {r2!r}, not that sensor's Reading(**kw)")
+    from . import c01 as _c01cv
+    _c01cv.sensor_calibration_vector(ctx)
     make_reading_guard(ctx, prog.modules["python"])
     container_rule(ctx)
     genlayout.check_all(ctx, genlayout.GenInfo(ctx, prog))
